@@ -349,3 +349,9 @@ Proof.
     - exact IH. }
   rewrite E. vm_compute. reflexivity.
 Qed.
+
+Lemma shared_refuted :
+  poll_ok (sw_run Shared shared_early) (next_waiter Shared [SWrite 1000; SReply; SSync; SRoll; SWrite 10]) = true /\
+  (forall tail, Forall (fun st => st = SSync \/ exists w, st = SPoll w) tail ->
+     poll_ok (sw_run Shared (shared_late ++ tail)) (next_waiter Shared []) = false).
+Proof. split; [exact shared_ack_before_sync|exact shared_lost_wakeup]. Qed.
